@@ -78,8 +78,9 @@ Record commit := mkCommit {
   c_tree : bytes; c_parents : list bytes;
   c_author : option sign; c_committer : option sign; c_msg : bytes }.
 
-(* NewCommit: header lines until the first line that has no space; the
-   message is the remaining lines joined by "\n". *)
+(* NewCommit: the data split at line feeds only (a final empty piece dropped);
+   header lines until the first line that has no space; the message is the
+   remaining lines joined by "\n". *)
 Fixpoint parse_headers (ls : list bytes) (c : commit) : option (commit * list bytes) :=
   match ls with
   | [] => Some (c, [])
@@ -112,7 +113,7 @@ Fixpoint parse_headers (ls : list bytes) (c : commit) : option (commit * list by
   end.
 
 Definition parse_commit (data : bytes) : option commit :=
-  match parse_headers (scan_lines data) (mkCommit [] [] None None []) with
+  match parse_headers (lf_lines data) (mkCommit [] [] None None []) with
   | Some (c, msg_lines) =>
       Some (mkCommit (c_tree c) (c_parents c) (c_author c) (c_committer c) (join [c_nl] msg_lines))
   | None => None
